@@ -10,7 +10,7 @@ THEOREMS = [NS + t for t in (
     'mask_spec', 'mask_ranges', 'C18_roundtrip', 'C18_twos_complement', 'C18_compose', 'C18_places',
     'C18_places_length', 'C18_reject_range', 'C18_reject_alphabet', 'C18_reject_length', 'C18_reject_kinds',
     'C18_total_kinds', 'C18_injective', 'C18_output_alphabet', 'C18_decode_in_range', 'C18_roundtrip_text',
-    'C18_places_roundtrip')]
+    'C18_places_roundtrip', 'C18_base2base_value', 'InRange_widen')]
 DESIGN_REF = 'DESIGN.md §7 C18'
 RULE = ('ops b2d/d2b/b2b on scalar arguments. quick: every integer -513..512 through DEC2BIN (+ every places 1..10 on '
         'every 8th), boundary and sampled integers for octal/hex, digit strings up to 11 chars over each alphabet, '
